@@ -150,7 +150,7 @@ def run(ctx: Ctx) -> None:
     # ---------------------------------------------------------------- (1) TLC
     maxn = ctx.pick(4, 5)
     res = run_tlc("MCQubitOrder", None, workdir=ctx.work, name="mc_repaired", workers=workers, timeout=3000,
-                  cfg_text=Q.qo_cfg("cV111", maxn, 4, 0, "cBoth", "spe", False, False, C25_INVS))
+                  cfg_text=Q.qo_cfg(Q.REPAIRED, maxn, 4, 0, "cBoth", "spe", False, False, C25_INVS))
     ctx.add_tlc(res)
     if res["violated"]:
         raise MachineryError(f"the repaired revision of the mechanism violates the requirement in the model: {res['violated']} (spec bug) see {res['outfile']}")
@@ -161,7 +161,7 @@ def run(ctx: Ctx) -> None:
     if cov.get("coverage_zero"):
         ctx.notes.append(f"spec actions never taken: {cov['coverage_zero']}")
     model_violates = []
-    if variant != "cV111":
+    if variant != Q.REPAIRED:
         r2 = run_tlc("MCQubitOrder", None, workdir=ctx.work, name="mc_observed", workers=workers,
                      cfg_text=Q.qo_cfg(variant, 3, 3, 0, "cBoth", "spe", False, False, C25_INVS))
         ctx.add_tlc(r2)
@@ -183,6 +183,8 @@ def run(ctx: Ctx) -> None:
             for m in ms:
                 big.append({"backend": "mps", "n": n, "rho": rng.sample(range(n), n), "optp": rng.choice(perms_n), "reorder": True, "spe": True, "dark": m, "given": False, "dim": 2})
                 big.append({"backend": "sv", "n": n, "rho": rng.sample(range(n), n), "optp": list(range(n)), "reorder": False, "spe": True, "dark": m, "given": False, "dim": 2})
+    for s in big:
+        s["tagmode"] = "base"
     f = ctx.work / "sample_scenarios.json"
     f.write_text(json.dumps(big))
     preds.update(Q.tlc_predictions(ctx, "sample", variant, scen_file=f, workers=workers))
